@@ -196,6 +196,20 @@ class VCond:
         self.m.acquire()
         return r
 
+    def wait_for(self, predicate, timeout=None):
+        """as threading.Condition.wait_for: wait until the predicate holds or the (single, overall) timeout has passed"""
+        end = None if timeout is None else self.S.now + timeout
+        result = predicate()
+        while not result:
+            left = None
+            if end is not None:
+                left = end - self.S.now
+                if left <= 0:
+                    break
+            self.wait(left)
+            result = predicate()
+        return result
+
     def notify(self, n=1):
         self._owned("notify")
         for tok in self.waiters[:n]:
